@@ -202,9 +202,9 @@ fn sentence(rng: &mut Rng) -> String {
 
 pub fn run(ctx: &Ctx) -> Report {
     let mut rep = Report::new("C09");
-    rep.rule = "cases = byte strings pushed through TimeZoneSettings::parse_posix_tz (reader always fails; extensions off), a minimal version-2 footer (off) and a version-3 footer (on); oracle = M-posix, a recursive-descent recogniser + denotation written from the grammar (Must / MustFail / Unspec: >3-digit numbers, whitespace, non-ASCII letters next to an unquoted name). \
+    rep.rule = "cases = byte strings pushed through TimeZoneSettings::parse_posix_tz (reader always fails; extensions off), a minimal version-2 footer (off) and a version-3 footer (on); oracle = M-posix, a recursive-descent recogniser + denotation written from the grammar (Must / MustFail / Unspec: in-range numbers written with more than 3 digits, whitespace, non-ASCII letters next to an unquoted name). \
                 Enumerated: cross product of name forms x offset spellings x DST forms x day notations x time forms x {complete, missing end rule, trailing character} (strided in the quick tier); every single-character edit (delete / insert / replace over a 17-letter alphabet) of generated sentences; thorough: all strings of length <= 6 over a 14-letter alphabet. \
-                Random: grammar-directed sentences of random rules with random spellings. distinct_nontrivial = distinct strings."
+                every number of generated sentences replaced by the value + {128, 256, 512, 768, 2^15, 2^16, 3*2^16, 2^31, 2^32, 2^64}. Random: grammar-directed sentences of random rules with random spellings. distinct_nontrivial = distinct strings."
         .into();
     rep.required_classes = vec![
         "sentence_(plain_posix)",
@@ -220,6 +220,7 @@ pub fn run(ctx: &Ctx) -> Report {
         "extended_hour_167",
         "quoted_name",
         "non_utf8_through_footer",
+        "number_congruent_modulo_a_power_of_two",
     ];
     if let Err(e) = crate::mon::c03::self_tests() {
         rep.inconclusive.push(format!("model self-test failed: {}", e));
@@ -289,6 +290,37 @@ pub fn run(ctx: &Ctx) -> Report {
             }
         }
         l.op_n("parse entry points", n);
+    });
+    // wl 5: every number of a sentence replaced by a value congruent to it modulo 2^8 / 2^16 / 2^32 / 2^64 (what a
+    // narrowing conversion before the range check would let through), and by the field's neighbours
+    run_cases(ctx, &mut rep, 5, ctx.n(4000, 60_000), |l, rng, i| {
+        let s = sentence(rng).into_bytes();
+        let mut n = 0;
+        let mut p = 0;
+        while p < s.len() {
+            if !s[p].is_ascii_digit() {
+                p += 1;
+                continue;
+            }
+            let mut q = p;
+            while q < s.len() && s[q].is_ascii_digit() {
+                q += 1;
+            }
+            let v: u128 = std::str::from_utf8(&s[p..q]).unwrap().parse().unwrap_or(0);
+            for add in [256u128, 512, 768, 1 << 16, 3 << 16, 1 << 32, 1 << 64, 1 << 31, 1 << 15, 128] {
+                let mut r = s[..p].to_vec();
+                r.extend((v + add).to_string().as_bytes());
+                r.extend(&s[q..]);
+                n += check_string(l, &r);
+                l.distinct_hash(Fnv::new().b(&r).get());
+                l.class("number_congruent_modulo_a_power_of_two");
+            }
+            p = q;
+        }
+        l.op_n("parse entry points", n);
+        if i % 1000 == 0 {
+            l.sample(|| Json::obj().set("sentence", String::from_utf8_lossy(&s).to_string()).set("edits", "each number + {128, 256, 512, 768, 2^15, 2^16, 3*2^16, 2^31, 2^32, 2^64}"));
+        }
     });
     if !ctx.quick() {
         // wl 4: all strings of length <= 6 over a 14-letter alphabet
